@@ -10,9 +10,22 @@ package simrt
 
 import (
 	"fmt"
+	"os"
 	"sort"
+	"strconv"
 	"sync"
 )
+
+// The fidelity self-test runs coca's own test suite on the rewritten copy, where no simproc
+// installs a schedule: the default schedule can be chosen through the environment.
+func init() {
+	if t := os.Getenv("VERIFSIM_TAIL"); t != "" {
+		sched.Tail = t
+		if s := os.Getenv("VERIFSIM_SEED"); s != "" {
+			sched.Seed, _ = strconv.ParseUint(s, 10, 64)
+		}
+	}
+}
 
 type Schedule struct {
 	// Codes[k] selects the permutation of the k-th iteration event:
